@@ -19,7 +19,16 @@ RULE = ("K: the constraint systems of the C26 generator (1-8 objects, all five c
         "constraints and >= 2 objects under a non-identity order.")
 
 
+def in_scope(sys):
+    """C27 is claimed for runs that are not cut short by max_iter: C27_perm has the explicit escape "the permuted run
+    does not settle within its max_iter", and C27_terminates shows 9 * #objects passes always suffice.  Systems with a
+    smaller max_iter (the generator makes some, to reach the for-else branch) are only compared with the model."""
+    return sys.get("max_iter", 1000) > 9 * len(sys["objects"])
+
+
 def property_fails(sys, ords):
+    if not in_scope(sys):
+        return None
     outs = [((oo, co), pc.run_impl(sys, oo, co)) for oo, co in ords]
     return pc.c27_violation(sys, outs)
 
@@ -64,7 +73,7 @@ def run(ctx):
                      orders_per_system=len(ords), perturbation=tags.get("perturbation", tags["family"]),
                      all_permutations=nc <= 4)
         ctx.impl_property_evals += 1
-        d = pc.c27_disagreement(outs)
+        d = pc.c27_disagreement(outs) if in_scope(s) else None
         if d:
             if not ctx.violations:                      # shrink the first one only
                 _report(ctx, s, ords)
@@ -76,6 +85,8 @@ def run(ctx):
 # ------------------------------------------------------------------------------------------- S
 def _report(ctx, s, ords):
     """shrink (fewer constraints / objects, same relative orders) and report"""
+    if not in_scope(s):
+        return False
     outs = [((oo, co), pc.run_impl(s, oo, co)) for oo, co in ords]
     d = pc.c27_disagreement(outs)
     if d is None:
